@@ -204,13 +204,15 @@ def _layer_resolve(ck: Check):
     n_consts = 4 if thorough else 3
     ssize = 2
     ck.bound('resolve.registry_constants(all graphs)', n_consts)
-    for k in range(1, n_consts + 1):
-        for reg_tpl in E.registries(k, rich=thorough and k <= 3):
+    for k in range(0, n_consts + 1):          # k = 0: the EMPTY registry (fresh context): every reference is unknown and must fail
+        for reg_tpl in (E.registries(k, rich=thorough and k <= 3) if k else [[]]):
             values, hashes = E.build_registry(reg_tpl)
             ctx = _register_all(values)
             reg = dict(zip(hashes, values))
-            dmax = max(E.depth_of(reg_tpl))
+            dmax = max(E.depth_of(reg_tpl), default=0)
             for sz, st in E.scripts_upto(ssize, k, with_opaque=False):
+                if k == 0 and '$hashstr' in repr(st):
+                    continue                     # the literal spelling of a registered hash needs a registered constant
                 r = _check_resolve_in(ctx, reg, hashes, reg_tpl, st)
                 ck.evaluate(f'resolve all-graphs consts={k} graph-depth={dmax} size={sz}')
                 if r:
